@@ -1,6 +1,6 @@
 // harness for C18: sandboxed evaluation.
 //
-// op "c18": payload = mode, cfgSrc, programSrc, then (file name, file content) pairs.
+// op "c18": payload = programSrc, mode, cfgSrc, then (file name, file content) pairs.
 //   direct     syntax.EvalWithScope(ctx, "", programSrc, syntax.SafeStdScope())
 //   evaluator  syntax.EvaluateExpr(ctx, "", programSrc)   where programSrc = //eval.evaluator(cfg).eval("…")
 //   outside    like evaluator; the program also calls the sandbox's result at top level
@@ -131,7 +131,7 @@ func baseName(s string) string {
 }
 
 func run(p []string) (res string) {
-	mode, cfgSrc, prog := p[0], p[1], p[2]
+	prog, mode, cfgSrc := p[0], p[1], p[2]
 	mem := afero.NewMemMapFs()
 	for i := 3; i+1 < len(p); i += 2 {
 		if err := afero.WriteFile(mem, p[i], []byte(p[i+1]), 0o644); err != nil {
